@@ -217,11 +217,8 @@ class BaseCollection(BaseDisplayRepr):
         all_children = self._children
         for child in old_children:
             child._parent = None
-        self._children = [
-            child
-            for child in all_children
-            if not any(child is old for old in old_children)
-        ]
+        old_ids = {id(child) for child in old_children}
+        self._children = [child for child in all_children if id(child) not in old_ids]
         try:
             self.add(*new_children, override_parent=True)
         except Exception:
@@ -334,7 +331,8 @@ class BaseCollection(BaseDisplayRepr):
 
         # validate all inputs before assigning any parent, so that a rejected
         # call leaves the collection tree unchanged
-        for ind, obj in enumerate(obj_list):
+        seen = set()
+        for obj in obj_list:
             if isinstance(obj, Collection):
                 # no need to check recursively with `collections_all` if obj is already self
                 if obj is self or self in obj.collections_all:
@@ -346,10 +344,11 @@ class BaseCollection(BaseDisplayRepr):
                     f"Cannot add {obj!r} to {self!r} because it already has a parent.\n"
                     "Consider using `override_parent=True`."
                 )
-            if any(obj is other for other in obj_list[:ind]):
+            if id(obj) in seen:
                 raise MagpylibBadUserInput(
                     f"Cannot add {obj!r} to {self!r} more than once."
                 )
+            seen.add(id(obj))
 
         # assign parent
         for obj in obj_list:
